@@ -23,7 +23,7 @@
 #ifdef SIM_SAN
 extern "C" int __lsan_do_recoverable_leak_check(void);
 extern "C" __attribute__((used)) const char *__asan_default_options() {
-    return "exitcode=77:detect_leaks=1:leak_check_at_exit=0:abort_on_error=0:detect_stack_use_after_return=0:malloc_context_size=12:fast_unwind_on_malloc=0";
+    return "exitcode=77:detect_leaks=1:leak_check_at_exit=0:abort_on_error=0:detect_stack_use_after_return=0:malloc_context_size=10";
 }
 extern "C" __attribute__((used)) const char *__ubsan_default_options() { return "print_stacktrace=0:halt_on_error=0"; }
 extern "C" __attribute__((used)) const char *__lsan_default_options() { return "print_suppressions=0:report_objects=0"; }
